@@ -30,11 +30,12 @@ def load_prop(pid):
 # one simulated execution
 # --------------------------------------------------------------------------------------------
 def simulate(choices, main, strategy=("rtb",), netcfg=None, trace_files=None, trace_funcs=None,
-             step_cap=400000, keep_log=False, setup=None):
+             step_cap=400000, keep_log=False, setup=None, drift=0.0):
     """run main(sim, kernel) under a fresh Sim; returns (outcome, sim) where outcome is a dict:
        kind: ok | violation | deadlock | cap | error ; plus cls/detail/sig/value"""
     keep_log = keep_log or bool(os.environ.get("VERIF_TRACE"))
     sim = core.Sim(choices, strategy, step_cap=step_cap, keep_log=keep_log)
+    sim.drift = drift
     k = net.Kernel(sim, netcfg)
     if trace_files:
         trace.enable(sim, trace_files, trace_funcs)
